@@ -387,6 +387,39 @@ class CallMixin:
         finally:
             self.specmode -= 1
 
+    def eval_contract_conjuncts(self, fn, env):
+        """like eval_contract_fn, but a top-level `and` is split: returns a list of z3 Bools (proved one by one)"""
+        argnames, body = S.fn_tree(fn)
+        if isinstance(body, list) or not (isinstance(body, ast.BoolOp) and isinstance(body.op, ast.And)):
+            return [self.truthy(self.eval_contract_fn(fn, env))]
+        e = {}
+        for a in argnames:
+            if a == 'old':
+                e[a] = SOldNS()
+            elif a in env:
+                e[a] = env[a]
+            elif a in self.d.contract.globals:
+                e[a] = self.mod_lookup(self.d.mod, a)
+            else:
+                raise Unsupported(f'contract function parameter {a} not bound')
+        if getattr(fn, '__closure__', None):
+            for nm, cell in zip(fn.__code__.co_freevars, fn.__closure__):
+                try:
+                    v = cell.cell_contents
+                except ValueError:
+                    continue
+                if v is None or isinstance(v, (bool, int, str)):
+                    e.setdefault(nm, lift(v))
+        fr = Frame(e, self.d.spec_mod_of(fn))
+        out = []
+        self.specmode += 1
+        try:
+            for part in body.values:
+                out.append(self.truthy(self.eval(fr, part)))
+        finally:
+            self.specmode -= 1
+        return out
+
     def run_ghost(self, fn, env):
         argnames, body = S.fn_tree(fn)
         e = {}
@@ -424,7 +457,10 @@ class CallMixin:
         L = z3.Length(t)
         if name == 'append':
             self.check_alias(fr, recv)
-            self.assign(fr, recv_node, SSeq(z3.Concat(t, z3.Unit(self.to_val(args[0]))), recv.kind, recv.elem))
+            u = z3.Unit(self.to_val(args[0]))
+            r = z3.Concat(t, u)
+            self.seq_facts('concat', r, t, u)
+            self.assign(fr, recv_node, SSeq(r, recv.kind, recv.elem))
             return NONE
         if name == 'extend':
             self.check_alias(fr, recv)
